@@ -68,6 +68,8 @@ def stf_vonKarman(r, L0):
             * (1 - 2 * np.pi ** (5. / 6.) * ((r) / L0) ** (5. / 6.)
                / scipy.special.gamma(5. / 6.)
                * scipy.special.kv(5. / 6., (2 * np.pi * r) / L0)))
+    # x^(5/6) K_5/6(x) has a finite limit at 0 but evaluates as 0 * inf there; D(0) = 0
+    D_vk = np.where(np.equal(r, 0), 0., D_vk)[()]
     return D_vk
 
 
